@@ -169,16 +169,22 @@ def sizeFields : List (Field × GoVal) → Nat
   | (_, v) :: fs => v.size + sizeFields fs
 end
 
+/-- the dynamic value of an interface-typed key (`k.Interface()`); other keys unchanged -/
+def unboxKey : GoVal → GoVal
+  | .iface (some v) => v
+  | v => v
+
 /-- Equality of map keys as Go's `==` on the boxed keys decides it (`k.Interface() ==
     key.Interface()`): same dynamic type and equal value; floats by IEEE `==`. -/
-def keyEq (feq : Nat → Nat → Nat → Bool) : GoVal → GoVal → Bool
+def keyEqScalar (feq : Nat → Nat → Nat → Bool) : GoVal → GoVal → Bool
   | .bool n a, .bool m b => n == m && a == b
   | .int k n a, .int k' m b => k == k' && n == m && a == b
   | .uint k n a, .uint k' m b => k == k' && n == m && a == b
   | .float k n a, .float k' m b => k == k' && n == m && feq k.bits a b
   | .str n a, .str m b => n == m && a == b
-  | .iface (some a), b => keyEq feq a b
-  | a, .iface (some b) => keyEq feq a b
   | _, _ => false
+
+def keyEq (feq : Nat → Nat → Nat → Bool) (a b : GoVal) : Bool :=
+  keyEqScalar feq (unboxKey a) (unboxKey b)
 
 end Bexpr.Go
